@@ -30,6 +30,14 @@ def EmbSrc1H (hs : List Spec.Name) : Stmt → Src → Prop
       incr.code = .binary (S "assign") p3 (.leaf .localVar (.s v) pv3)
         (.binary (S "add") p4 (.leaf .const (.s (stepStr down)) p5) (.leaf .localVar (.s v) pv4)) ∧
       Emb a ra ∧ Emb b rb ∧ EmbSrcH hs body body'
+  | .repeatIn (.var .loc v) l body, x =>
+    ∃ (presz : Nat) (bp : Smp) (incrsz postsz csz : Nat) (body' : List Src) (pb pk pc pl ps pg pl2 pv : Int) (ln : Node),
+      x = .loop (.in_ presz bp incrsz postsz) csz
+        (.binary (S "lte") pb (.leaf .const (.s (S "1")) pk) (.callFn (.s (S "count")) pc (.loadList (S "<load_list>") pl [ln]) true false false .none)) body' ∧
+      bp.off < bp.sz ∧
+      bp.code = .binary (S "assign") ps (.leaf .localVar (.s v) pv)
+        (.callFn (.s (S "getAt")) pg (.loadList (S "<load_list>") pl2 [.leaf .const (.s (S "1")) pk, ln]) true false false .none) ∧
+      Emb l ln ∧ EmbSrcH hs body body'
   | s, x => ∃ (sm : Smp) (p : Int), x = .simple sm ∧ sm.off < sm.sz ∧ EmbSH hs s (.stmt p sm.code) ∧ PlainStmt (.stmt p sm.code)
 def EmbSrcH (hs : List Spec.Name) : List Stmt → List Src → Prop
   | [], xs => xs = []
@@ -55,7 +63,10 @@ theorem EmbSrc1H.weaken (hs : List Spec.Name) : (s : Stmt) → (x : Src) → Emb
   | .hilite .., x, h => by obtain ⟨sm, p, rfl, ho, he, hp⟩ := h; exact ⟨sm, p, rfl, ho, EmbSH.toEmbS _ _ _ he, hp⟩
   | .mcall .., x, h => by obtain ⟨sm, p, rfl, ho, he, hp⟩ := h; exact ⟨sm, p, rfl, ho, EmbSH.toEmbS _ _ _ he, hp⟩
   | .tell .., x, h => by obtain ⟨sm, p, rfl, ho, he, hp⟩ := h; exact ⟨sm, p, rfl, ho, EmbSH.toEmbS _ _ _ he, hp⟩
-  | .repeatIn .., x, h => by obtain ⟨sm, p, rfl, ho, he, hp⟩ := h; exact ⟨sm, p, rfl, ho, EmbSH.toEmbS _ _ _ he, hp⟩
+  | .repeatIn (.var .loc v) l body, x, h => by
+    obtain ⟨presz, bp, incrsz, postsz, csz, body', pb, pk, pc, pl, ps, pg, pl2, pv, ln, rfl, ho, hc, hl, hb⟩ := h
+    exact ⟨presz, bp, incrsz, postsz, csz, body', pb, pk, pc, pl, ps, pg, pl2, pv, ln, rfl, ho, hc, hl, EmbSrcH.weaken hs body body' hb⟩
+  | .repeatIn (.int _) .., x, h => by obtain ⟨sm, p, rfl, ho, he, hp⟩ := h; exact ⟨sm, p, rfl, ho, EmbSH.toEmbS _ _ _ he, hp⟩
   | .exitRepeat, x, h => by obtain ⟨sm, p, rfl, ho, he, hp⟩ := h; exact ⟨sm, p, rfl, ho, EmbSH.toEmbS _ _ _ he, hp⟩
   | .repeatWith (.int _) .., x, h => by obtain ⟨sm, p, rfl, ho, he, hp⟩ := h; exact ⟨sm, p, rfl, ho, EmbSH.toEmbS _ _ _ he, hp⟩
 theorem EmbSrcH.weaken (hs : List Spec.Name) : (ss : List Stmt) → (xs : List Src) → EmbSrcH hs ss xs → EmbSrc ss xs
@@ -67,7 +78,7 @@ end
 
 /-- the simple-statement case: agent-link's `stmt_lemma` WITHOUT the weakening of `LinkFlow.stmtPos` -/
 theorem struct_simpleH (s : Stmt) (hf : FragS s = true) (h1 : ∀ c t e, s ≠ .ifThen c t e) (h2 : ∀ c b, s ≠ .repeatWhile c b)
-    (h3 : ∀ v a b d body, s ≠ .repeatWith v a b d body)
+    (h3 : ∀ v a b d body, s ≠ .repeatWith v a b d body) (h4 : ∀ v l body, s ≠ .repeatIn v l body)
     (c : Spec.Ctx) (hT : c.inTell = false) (s0 s1 : St) (cs : List CStmt) (h : lowerStmt c s s0 = .ok (cs, s1)) :
     Ext s0 s1 ∧ cs ≠ [] ∧ (∀ te, ∀ i ∈ layoutStmts te cs, i.opc ≠ 153) ∧
     ∀ (sF : St) (ctx : Lscr.Ctx), Ext s1 sF → Rel c sF ctx → ∀ (G : List Spec.Name), (∀ g ∈ s.vars .glob, g ∈ G) →
@@ -89,6 +100,7 @@ theorem struct_simpleH (s : Stmt) (hf : FragS s = true) (h1 : ∀ c t e, s ≠ .
     | ifThen c t e => exact absurd rfl (h1 c t e)
     | repeatWhile c b => exact absurd rfl (h2 c b)
     | repeatWith v a b d body => exact absurd rfl (h3 v a b d body)
+    | repeatIn v l body => exact absurd rfl (h4 v l body)
     | _ => simp only [EmbSrc1H]; exact hx
   refine ⟨_, hshape, ?_, gv', hgv', ?_⟩
   · simp [Src.size, lower1, P.sizes, P.size, CStmt.sizes, CStmt.size]
@@ -455,6 +467,170 @@ theorem struct_withH (n : Spec.Name) (ea eb : Expr) (down : Bool) (body : List S
         (by push_cast; omega) (cons_congr (jzStmt_congr _ (by push_cast; omega) (by push_cast; omega))
           (append_congr (emit_congr _ _ (by push_cast; omega)) (cons_congr (stmt_congr _ (by push_cast; omega)) rfl)))) rfl))
 
+/-! ### `repeat with v in l`: the peek protocol (list, count, counter on the stack) -/
+
+
+/-- `repeat with v in l … end repeat`, `v` a local variable -/
+theorem struct_inH (n : Spec.Name) (el : Expr) (body : List Stmt) (hfl : FragE el = true) (hbody : StructsH body) :
+    Struct1H (.repeatIn (.var .loc n) el body) := by
+  intro c hT s0 s1 cs h
+  rw [lowerStmt] at h
+  simp only [M_bind_ok, M_pure_ok, Prod.mk.injEq, lowerSet] at h
+  obtain ⟨cl, sA, hcl, ic, sB, hic, cnt, sB', hcnt, ig, sC, hig, gat, sC', hgat, setv, sD, hset, cbody, sE, hcbody, rfl, rfl⟩ := h
+  cases ho : c.localOff n with
+  | none => rw [ho] at hset; simp [Spec.fail] at hset
+  | some o =>
+    rw [ho] at hset
+    simp only [M_bind_ok, M_pure_ok, Prod.mk.injEq] at hset
+    obtain ⟨c2, s2, hop2, rfl, rfl⟩ := hset
+    obtain ⟨rfl, rfl, _⟩ := op2c_ok _ _ _ _ _ hop2
+    obtain ⟨rfl, rfl, _⟩ := op2c_ok _ _ _ _ _ hcnt
+    obtain ⟨rfl, rfl, _⟩ := op2c_ok _ _ _ _ _ hgat
+    obtain ⟨j, hj, rfl⟩ := localOff_spec' c n o ho
+    obtain ⟨eic, hgetc, _, _⟩ := nameIdx_ok _ _ _ _ hic
+    obtain ⟨eig, hgetg, _, _⟩ := nameIdx_ok _ _ _ _ hig
+    obtain ⟨e1, hopA, hrunA⟩ := stack_lemma el hfl c s0 _ cl hcl
+    obtain ⟨e3, _, hopC, hrunC⟩ := hbody c hT _ _ cbody hcbody
+    have hcs : ([CStmt.loop (cl ++ [Instr.op2 0x64 0, Instr.op2 0x43 1] ++ [Instr.op2 0x57 ic] ++ [Instr.op2 0x41 1])
+        [Instr.op2 0x64 0, Instr.op2 0x64 2, Instr.op1 0x0d]
+        ([Instr.op2 0x64 2, Instr.op2 0x64 1, Instr.op2 0x43 2] ++ [Instr.op2 0x57 ig] ++ [Instr.op2 0x52 (6 * j)]) cbody
+        [Instr.op2 0x41 1, Instr.op1 0x05] [Instr.op2 0x65 3]] : List CStmt) =
+        [CStmt.loop (cl ++ [Instr.op2 0x64 0, Instr.op2 0x43 1, Instr.op2 0x57 ic, Instr.op2 0x41 1])
+          [Instr.op2 0x64 0, Instr.op2 0x64 2, Instr.op1 0x0d]
+          [Instr.op2 0x64 2, Instr.op2 0x64 1, Instr.op2 0x43 2, Instr.op2 0x57 ig, Instr.op2 0x52 (6 * j)] cbody
+          [Instr.op2 0x41 1, Instr.op1 0x05] [Instr.op2 0x65 3]] := by simp
+    rw [hcs]
+    have hsp : codeSize (cl ++ [Instr.op2 0x64 0, Instr.op2 0x43 1, Instr.op2 0x57 ic, Instr.op2 0x41 1]) = codeSize cl + 8 := by
+      simp [codeSize_append, codeSize, Instr.size]
+    have hsc : codeSize [Instr.op2 0x64 0, Instr.op2 0x64 2, Instr.op1 0x0d] = 5 := by simp [codeSize, Instr.size]
+    have hsb : codeSize [Instr.op2 0x64 2, Instr.op2 0x64 1, Instr.op2 0x43 2, Instr.op2 0x57 ig, Instr.op2 0x52 (6 * j)] = 10 := by
+      simp [codeSize, Instr.size]
+    have hsi : codeSize [Instr.op2 0x41 1, Instr.op1 0x05] = 3 := by simp [codeSize, Instr.size]
+    refine ⟨(((e1.trans eic).trans eig).trans e3), by simp, ?_, ?_⟩
+    · intro te i hi
+      rw [layoutStmts_single, layoutStmt_in] at hi
+      simp only [List.mem_append, List.mem_cons, List.not_mem_nil, or_false] at hi
+      rcases hi with ((((((((hi | hi | hi | hi | hi) | hi | hi | hi) | hi) | hi | hi | hi | hi | hi) | hi) | hi | hi) | hi) | hi)
+      · exact hopA i hi
+      all_goals first | exact hopC _ i hi | (subst hi; simp [Instr.opc])
+    intro sF ctx hF hrel G hG hP te a st hb hgv hpos
+    have hGa : ∀ g ∈ el.vars .glob, g ∈ G := fun g hg => hG g (by simp [Stmt.vars, Expr.vars, hg])
+    have hGc : ∀ g ∈ Stmt.varsList .glob body, g ∈ G := fun g hg => hG g (by simp [Stmt.vars, hg])
+    have hPc : ∀ v ∈ Stmt.varsList .prop body, ctx.props.contains v = true := fun v hv => hP v (by simp [Stmt.vars, hv])
+    obtain ⟨pv, hlv⟩ := hrel.locals n j hj
+    have hnc : ctx.names[ic]? = some (S "count") := by rw [hrel.names]; exact ((eig.trans e3).trans hF).name hgetc
+    have hng : ctx.names[ig]? = some (S "getAt") := by rw [hrel.names]; exact (e3.trans hF).name hgetg
+    -- prologue
+    obtain ⟨ln, gv0, hembL, hgv0, hrL⟩ := hrunA sF ctx (((eic.trans eig).trans e3).trans hF) hrel G hGa a st hb hgv
+    have hpre := run_in_pre ctx a ic cl st ln gv0 hnc hrL
+    -- abbreviations for the protocol nodes
+    generalize hK : Node.leaf .const (.s (S "1")) ((a + codeSize cl + 6 : Nat) : Int) = kn at hpre
+    generalize hC : Node.callFn (.s (S "count")) ((a + codeSize cl + 4 : Nat) : Int) (.loadList (S "<load_list>") ((a + codeSize cl + 2 : Nat) : Int) [ln]) true false false .none = cn at hpre
+    -- condition
+    have hcnd := run_in_cnd ctx (a + (codeSize cl + 8)) { st with gvars := gv0, stack := (kn :: cn :: ln :: st.stack) } kn cn ln st.stack rfl
+    have hjz := run_jz ctx (a + (codeSize cl + 8)) _ (3 + (10 + CStmt.sizes cbody + 3) + 2) _ _ gv0 hcnd
+    rw [hsc] at hjz
+    -- first statement of the body
+    have hbp := run_in_bp ctx (a + (codeSize cl + 8) + 5 + 3) ig j
+      { st with gvars := gv0, stack := (kn :: cn :: ln :: st.stack), stmts := (st.stmts ++
+          [jzStmt ((a + (codeSize cl + 8) + 5 : Nat) : Int) (.binary (S "lte") ((a + (codeSize cl + 8) + 4 : Nat) : Int) kn cn)
+            (((a + (codeSize cl + 8) + 5 : Nat) : Int) + ((3 + (10 + CStmt.sizes cbody + 3) + 2 : Nat) : Int))]) }
+      hb (.leaf .localVar (.s n) pv) kn cn ln st.stack hng hlv rfl
+    -- body
+    have hpos1 : AllS (fun p _ => p < ((a + (codeSize cl + 8) + 5 + 3 + 10 : Nat) : Int))
+        ((st.stmts ++ [jzStmt ((a + (codeSize cl + 8) + 5 : Nat) : Int) (.binary (S "lte") ((a + (codeSize cl + 8) + 4 : Nat) : Int) kn cn)
+            (((a + (codeSize cl + 8) + 5 : Nat) : Int) + ((3 + (10 + CStmt.sizes cbody + 3) + 2 : Nat) : Int))]) ++
+          [.stmt ((a + (codeSize cl + 8) + 5 + 3 + 8 : Nat) : Int) (.binary (S "assign") ((a + (codeSize cl + 8) + 5 + 3 + 8 : Nat) : Int) (.leaf .localVar (.s n) pv)
+            (.callFn (.s (S "getAt")) ((a + (codeSize cl + 8) + 5 + 3 + 6 : Nat) : Int) (.loadList (S "<load_list>") ((a + (codeSize cl + 8) + 5 + 3 + 4 : Nat) : Int) [kn, ln]) true false false .none))]) :=
+      AllS.append (AllS.append (AllS.mono hpos fun _ _ hh => by push_cast; omega) (allS_jz _ _ _ (by push_cast; omega)))
+        (AllS.cons (by push_cast; omega) AllS.nil)
+    obtain ⟨b', hembb, hszb, gv2, hgv2, hr2⟩ := hrunC sF ctx hF hrel G hGc hPc (some (3 + 2)) (a + (codeSize cl + 8) + 5 + 3 + 10)
+      { st with gvars := gv0, stack := (kn :: cn :: ln :: st.stack), stmts := ((st.stmts ++
+          [jzStmt ((a + (codeSize cl + 8) + 5 : Nat) : Int) (.binary (S "lte") ((a + (codeSize cl + 8) + 4 : Nat) : Int) kn cn)
+            (((a + (codeSize cl + 8) + 5 : Nat) : Int) + ((3 + (10 + CStmt.sizes cbody + 3) + 2 : Nat) : Int))]) ++
+          [.stmt ((a + (codeSize cl + 8) + 5 + 3 + 8 : Nat) : Int) (.binary (S "assign") ((a + (codeSize cl + 8) + 5 + 3 + 8 : Nat) : Int) (.leaf .localVar (.s n) pv)
+            (.callFn (.s (S "getAt")) ((a + (codeSize cl + 8) + 5 + 3 + 6 : Nat) : Int) (.loadList (S "<load_list>") ((a + (codeSize cl + 8) + 5 + 3 + 4 : Nat) : Int) [kn, ln]) true false false .none))]) }
+      hb hgv0.1 hpos1
+    have hwfb := (embSrc_wf body b' (EmbSrcH.weaken _ _ _ hembb)).1
+    have invb := emit_inv false ((a + (codeSize cl + 8) + 5 + 3 + 10 : Nat) : Int) (lower b') hwfb
+    -- step
+    have hinc := run_in_incr ctx (a + (codeSize cl + 8) + 5 + 3 + 10 + CStmt.sizes cbody)
+      { st with gvars := gv2, stack := (kn :: cn :: ln :: st.stack), stmts := (((st.stmts ++
+          [jzStmt ((a + (codeSize cl + 8) + 5 : Nat) : Int) (.binary (S "lte") ((a + (codeSize cl + 8) + 4 : Nat) : Int) kn cn)
+            (((a + (codeSize cl + 8) + 5 : Nat) : Int) + ((3 + (10 + CStmt.sizes cbody + 3) + 2 : Nat) : Int))]) ++
+          [.stmt ((a + (codeSize cl + 8) + 5 + 3 + 8 : Nat) : Int) (.binary (S "assign") ((a + (codeSize cl + 8) + 5 + 3 + 8 : Nat) : Int) (.leaf .localVar (.s n) pv)
+            (.callFn (.s (S "getAt")) ((a + (codeSize cl + 8) + 5 + 3 + 6 : Nat) : Int) (.loadList (S "<load_list>") ((a + (codeSize cl + 8) + 5 + 3 + 4 : Nat) : Int) [kn, ln]) true false false .none))]) ++
+          emit false ((a + (codeSize cl + 8) + 5 + 3 + 10 : Nat) : Int) (lower b')) }
+      kn (cn :: ln :: st.stack) rfl
+    -- back jump
+    have hbk := run_back ctx (a + (codeSize cl + 8) + 5 + 3 + 10 + CStmt.sizes cbody + 3) (5 + 3 + (10 + CStmt.sizes cbody + 3))
+      { st with gvars := gv2, stack := (.binary (S "add") ((a + (codeSize cl + 8) + 5 + 3 + 10 + CStmt.sizes cbody + 2 : Nat) : Int) kn
+            (.leaf .const (.s (S "1")) ((a + (codeSize cl + 8) + 5 + 3 + 10 + CStmt.sizes cbody : Nat) : Int)) :: cn :: ln :: st.stack), stmts := (((st.stmts ++
+          [jzStmt ((a + (codeSize cl + 8) + 5 : Nat) : Int) (.binary (S "lte") ((a + (codeSize cl + 8) + 4 : Nat) : Int) kn cn)
+            (((a + (codeSize cl + 8) + 5 : Nat) : Int) + ((3 + (10 + CStmt.sizes cbody + 3) + 2 : Nat) : Int))]) ++
+          [.stmt ((a + (codeSize cl + 8) + 5 + 3 + 8 : Nat) : Int) (.binary (S "assign") ((a + (codeSize cl + 8) + 5 + 3 + 8 : Nat) : Int) (.leaf .localVar (.s n) pv)
+            (.callFn (.s (S "getAt")) ((a + (codeSize cl + 8) + 5 + 3 + 6 : Nat) : Int) (.loadList (S "<load_list>") ((a + (codeSize cl + 8) + 5 + 3 + 4 : Nat) : Int) [kn, ln]) true false false .none))]) ++
+          emit false ((a + (codeSize cl + 8) + 5 + 3 + 10 : Nat) : Int) (lower b')) }
+      st.stmts
+      (jzStmt ((a + (codeSize cl + 8) + 5 : Nat) : Int) (.binary (S "lte") ((a + (codeSize cl + 8) + 4 : Nat) : Int) kn cn)
+            (((a + (codeSize cl + 8) + 5 : Nat) : Int) + ((3 + (10 + CStmt.sizes cbody + 3) + 2 : Nat) : Int)) ::
+        (.stmt ((a + (codeSize cl + 8) + 5 + 3 + 8 : Nat) : Int) (.binary (S "assign") ((a + (codeSize cl + 8) + 5 + 3 + 8 : Nat) : Int) (.leaf .localVar (.s n) pv)
+            (.callFn (.s (S "getAt")) ((a + (codeSize cl + 8) + 5 + 3 + 6 : Nat) : Int) (.loadList (S "<load_list>") ((a + (codeSize cl + 8) + 5 + 3 + 4 : Nat) : Int) [kn, ln]) true false false .none)) ::
+          emit false ((a + (codeSize cl + 8) + 5 + 3 + 10 : Nat) : Int) (lower b')))
+      ((a + (codeSize cl + 8) : Nat) : Int) (by simp [List.append_assoc]) (by push_cast; omega)
+      (AllS.mono hpos fun _ _ hh => by push_cast; omega)
+      (AllS.append (allS_jz _ _ _ (by push_cast; omega)) (AllS.cons (by push_cast; omega)
+        (AllS.mono invb fun _ _ hh => by have := hh.1; push_cast at *; omega)))
+    -- epilogue
+    have hpost := run_in_post ctx (a + (codeSize cl + 8) + 5 + 3 + 10 + CStmt.sizes cbody + 3 + 2)
+      { st with gvars := gv2, stack := (.binary (S "add") ((a + (codeSize cl + 8) + 5 + 3 + 10 + CStmt.sizes cbody + 2 : Nat) : Int) kn
+            (.leaf .const (.s (S "1")) ((a + (codeSize cl + 8) + 5 + 3 + 10 + CStmt.sizes cbody : Nat) : Int)) :: cn :: ln :: st.stack), stmts := (st.stmts ++ [.stmt ((a + (codeSize cl + 8) + 5 + 3 + 10 + CStmt.sizes cbody + 3 : Nat) : Int)
+            (rawLoop ((a + (codeSize cl + 8) : Nat) : Int) ((a + (codeSize cl + 8) + 5 + 3 + 10 + CStmt.sizes cbody + 3 : Nat) : Int)
+              (jzStmt ((a + (codeSize cl + 8) + 5 : Nat) : Int) (.binary (S "lte") ((a + (codeSize cl + 8) + 4 : Nat) : Int) kn cn)
+                (((a + (codeSize cl + 8) + 5 : Nat) : Int) + ((3 + (10 + CStmt.sizes cbody + 3) + 2 : Nat) : Int)) ::
+              (.stmt ((a + (codeSize cl + 8) + 5 + 3 + 8 : Nat) : Int) (.binary (S "assign") ((a + (codeSize cl + 8) + 5 + 3 + 8 : Nat) : Int) (.leaf .localVar (.s n) pv)
+                (.callFn (.s (S "getAt")) ((a + (codeSize cl + 8) + 5 + 3 + 6 : Nat) : Int) (.loadList (S "<load_list>") ((a + (codeSize cl + 8) + 5 + 3 + 4 : Nat) : Int) [kn, ln]) true false false .none)) ::
+              emit false ((a + (codeSize cl + 8) + 5 + 3 + 10 : Nat) : Int) (lower b'))))]) }
+      _ cn ln st.stack rfl
+    subst hK hC
+    refine ⟨.loop (.in_ (codeSize cl + 8)
+        ⟨10, 8, .binary (S "assign") ((a + (codeSize cl + 8) + 5 + 3 + 8 : Nat) : Int) (.leaf .localVar (.s n) pv)
+            (.callFn (.s (S "getAt")) ((a + (codeSize cl + 8) + 5 + 3 + 6 : Nat) : Int) (.loadList (S "<load_list>") ((a + (codeSize cl + 8) + 5 + 3 + 4 : Nat) : Int)
+              [.leaf .const (.s (S "1")) ((a + codeSize cl + 6 : Nat) : Int), ln]) true false false .none)⟩ 3 2) 5
+        (.binary (S "lte") ((a + (codeSize cl + 8) + 4 : Nat) : Int) (.leaf .const (.s (S "1")) ((a + codeSize cl + 6 : Nat) : Int))
+          (.callFn (.s (S "count")) ((a + codeSize cl + 4 : Nat) : Int) (.loadList (S "<load_list>") ((a + codeSize cl + 2 : Nat) : Int) [ln]) true false false .none)) b',
+      ⟨_, _, _, _, _, _, _, _, _, _, _, _, _, _, _, rfl, by simp only; omega, rfl, EmbH.toEmb _ _ _ hembL, hembb⟩, ?_, gv2, hgv0.trans hgv2, ?_⟩
+    · rw [size_in]
+      simp only [CStmt.sizes, CStmt.size, hsi, hsc, hsp, hsb, hszb]
+      simp [codeSize, Instr.size]
+      omega
+    · rw [layoutStmts_single, layoutStmt_in, hsb, hsi, hsc]
+      have hc95 : codeSize ([Instr.op2 0x64 0, Instr.op2 0x64 2, Instr.op1 0x0d] ++ [Instr.op3 0x95 (3 + (10 + CStmt.sizes cbody + 3) + 2)]) = 5 + 3 := by
+        simp [codeSize, Instr.size]
+      have hcb2 : codeSize (layoutStmts (some (3 + 2)) cbody) = CStmt.sizes cbody := layoutStmts_size _ _
+      have hc54 : codeSize [Instr.op2 0x54 (5 + 3 + (10 + CStmt.sizes cbody + 3))] = 2 := by simp [codeSize, Instr.size]
+      have hcode : cl ++ [Instr.op2 0x64 0, Instr.op2 0x43 1, Instr.op2 0x57 ic, Instr.op2 0x41 1] ++ [Instr.op2 0x64 0, Instr.op2 0x64 2, Instr.op1 0x0d] ++
+            [Instr.op3 0x95 (3 + (10 + CStmt.sizes cbody + 3) + 2)] ++
+            [Instr.op2 0x64 2, Instr.op2 0x64 1, Instr.op2 0x43 2, Instr.op2 0x57 ig, Instr.op2 0x52 (6 * j)] ++ layoutStmts (some (3 + 2)) cbody ++
+            [Instr.op2 0x41 1, Instr.op1 0x05] ++ [Instr.op2 0x54 (5 + 3 + (10 + CStmt.sizes cbody + 3))] ++ [Instr.op2 0x65 3] =
+          (cl ++ [Instr.op2 0x64 0, Instr.op2 0x43 1, Instr.op2 0x57 ic, Instr.op2 0x41 1]) ++
+            (([Instr.op2 0x64 0, Instr.op2 0x64 2, Instr.op1 0x0d] ++ [Instr.op3 0x95 (3 + (10 + CStmt.sizes cbody + 3) + 2)]) ++
+              ([Instr.op2 0x64 2, Instr.op2 0x64 1, Instr.op2 0x43 2, Instr.op2 0x57 ig, Instr.op2 0x52 (6 * j)] ++
+                (layoutStmts (some (3 + 2)) cbody ++ ([Instr.op2 0x41 1, Instr.op1 0x05] ++
+                  ([Instr.op2 0x54 (5 + 3 + (10 + CStmt.sizes cbody + 3))] ++ [Instr.op2 0x65 3]))))) := by
+        simp only [List.append_assoc]
+      rw [hcode]
+      dsimp only at hpre hjz hbp hr2 hinc hbk hpost
+      rw [runIs_bind_ok hpre, hsp, runIs_bind_ok hjz, hc95, ← Nat.add_assoc, runIs_bind_ok hbp, hsb, runIs_bind_ok hr2, hcb2,
+        runIs_bind_ok hinc, hsi, runIs_bind_ok hbk, hc54, hpost]
+      simp only [lower1, emit, emit1, emit1_simple, emit1_loop_raw, emit_append, List.append_nil, List.nil_append, List.append_assoc, List.cons_append,
+        P.sizes, P.size, Drx.LinkFlow.sizes_append, hszb, Bool.false_eq_true, if_false]
+      exact stmts_congr st gv2 (cons_congr (rawLoop_congr (by push_cast; omega) (by push_cast; omega)
+        (cons_congr (jzStmt_congr _ (by push_cast; omega) (by push_cast; omega))
+          (cons_congr (stmt_congr' _ (by push_cast; omega)) (emit_congr _ _ (by push_cast; omega))))) rfl)
+
+
+
 /-! ### all structured statements of the fragment -/
 
 theorem structs_nilH : StructsH [] := by
@@ -467,8 +643,8 @@ theorem structs_nilH : StructsH [] := by
   exact ⟨[], rfl, by simp [lower, P.sizes, CStmt.sizes], st.gvars, GvNext.refl hgv, by simp [layoutStmts, runIs, lower, emit]⟩
 
 theorem struct1_simpleH (s : Stmt) (hf : FragS s = true) (h1 : ∀ c t e, s ≠ .ifThen c t e) (h2 : ∀ c b, s ≠ .repeatWhile c b)
-    (h3 : ∀ v a b d body, s ≠ .repeatWith v a b d body) : Struct1H s :=
-  fun c hT s0 s1 cs h => struct_simpleH s hf h1 h2 h3 c hT s0 s1 cs h
+    (h3 : ∀ v a b d body, s ≠ .repeatWith v a b d body) (h4 : ∀ v l body, s ≠ .repeatIn v l body) : Struct1H s :=
+  fun c hT s0 s1 cs h => struct_simpleH s hf h1 h2 h3 h4 c hT s0 s1 cs h
 
 mutual
 /-- **the structured stack lemma**, for every statement of the fragment -/
@@ -482,25 +658,25 @@ theorem struct1_allH : (s : Stmt) → FragT s = true → Struct1H s
   | .repeatWith (.var .loc v) a b down body, h => by
     simp only [FragT, Bool.and_eq_true] at h
     exact struct_withH v a b down body h.1.1.2 h.1.2 (structs_allH body h.2)
-  | .set lv v, h => struct1_simpleH _ (by simp only [FragT, Bool.and_eq_true] at h; exact h.1) (by intros; simp) (by intros; simp) (by intros; simp)
-  | .call f as, h => struct1_simpleH _ (by simpa [FragT] using h) (by intros; simp) (by intros; simp) (by intros; simp)
-  | .exit, _ => struct1_simpleH _ rfl (by intros; simp) (by intros; simp) (by intros; simp)
-  | .put m v lv, h => struct1_simpleH _ (by simpa [FragT] using h) (by intros; simp) (by intros; simp) (by intros; simp)
-  | .delete t, h => struct1_simpleH _ (by simpa [FragT] using h) (by intros; simp) (by intros; simp) (by intros; simp)
-  | .hilite t, h => struct1_simpleH _ (by simpa [FragT] using h) (by intros; simp) (by intros; simp) (by intros; simp)
-  | .mcall o m as, h => struct1_simpleH _ (by simpa [FragT] using h) (by intros; simp) (by intros; simp) (by intros; simp)
+  | .set lv v, h => struct1_simpleH _ (by simp only [FragT, Bool.and_eq_true] at h; exact h.1) (by intros; simp) (by intros; simp) (by intros; simp) (by intros; simp)
+  | .call f as, h => struct1_simpleH _ (by simpa [FragT] using h) (by intros; simp) (by intros; simp) (by intros; simp) (by intros; simp)
+  | .exit, _ => struct1_simpleH _ rfl (by intros; simp) (by intros; simp) (by intros; simp) (by intros; simp)
+  | .put m v lv, h => struct1_simpleH _ (by simpa [FragT] using h) (by intros; simp) (by intros; simp) (by intros; simp) (by intros; simp)
+  | .delete t, h => struct1_simpleH _ (by simpa [FragT] using h) (by intros; simp) (by intros; simp) (by intros; simp) (by intros; simp)
+  | .hilite t, h => struct1_simpleH _ (by simpa [FragT] using h) (by intros; simp) (by intros; simp) (by intros; simp) (by intros; simp)
+  | .mcall o m as, h => struct1_simpleH _ (by simpa [FragT] using h) (by intros; simp) (by intros; simp) (by intros; simp) (by intros; simp)
   | .tell .., h => by
     first
       | (simp [FragT] at h; done)
-      | exact struct1_simpleH _ (by simpa [FragT] using h) (by intros; simp) (by intros; simp) (by intros; simp)
-  | .repeatIn .., h => by
-    first
-      | (simp [FragT] at h; done)
-      | exact struct1_simpleH _ (by simpa [FragT] using h) (by intros; simp) (by intros; simp) (by intros; simp)
+      | exact struct1_simpleH _ (by simpa [FragT] using h) (by intros; simp) (by intros; simp) (by intros; simp) (by intros; simp)
+  | .repeatIn (.var .loc v) l body, h => by
+    simp only [FragT, Bool.and_eq_true] at h
+    exact struct_inH v l body h.1.2 (structs_allH body h.2)
+  | .repeatIn (.int _) .., h => by simp [FragT] at h
   | .exitRepeat, h => by
     first
       | (simp [FragT] at h; done)
-      | exact struct1_simpleH _ (by simpa [FragT] using h) (by intros; simp) (by intros; simp) (by intros; simp)
+      | exact struct1_simpleH _ (by simpa [FragT] using h) (by intros; simp) (by intros; simp) (by intros; simp) (by intros; simp)
   | .repeatWith (.int _) .., h => by simp [FragT] at h
 theorem structs_allH : (ss : List Stmt) → FragTs ss = true → StructsH ss
   | [], _ => structs_nilH
@@ -533,6 +709,16 @@ theorem embSJ_pos (hs : List Spec.Name) (s : Stmt) (hf : JsOkS s = true) (p p' :
     cases he
     simp only [EmbSJ]
     exact ⟨p', q, rfl⟩
+  | put m v lv =>
+    obtain ⟨p0, q, l, r, he, h1, h2⟩ := h
+    cases he
+    simp only [EmbSJ]
+    exact ⟨p', q, l, r, rfl, h1, EmbH.toEmb hs v r h2⟩
+  | mcall o m as =>
+    obtain ⟨p0, q, q', ps, rc, ops, nm, hnm, he, h1, h2⟩ := h
+    cases he
+    simp only [EmbSJ]
+    exact ⟨p', q, q', ps, rc, ops, nm, hnm, rfl, EmbLH.toEmbL hs as ops h1, h2⟩
   | delete t =>
     obtain ⟨p0, q, l, he, h1⟩ := h
     cases he
@@ -583,7 +769,10 @@ theorem embSJ_tgtL1 (hs : List Spec.Name) : (s : Stmt) → JsOkT s = true → (x
   | .exit, hf, x, h, o => by
     obtain ⟨sm, p, rfl, _, he, _⟩ := h
     exact ⟨_, rfl, embSJ_pos hs _ rfl p _ _ he⟩
-  | .put .., hf, _, _, _ => by simp [JsOkT] at hf
+  | .put m v lv, hf, x, h, o => by
+    obtain ⟨sm, p, rfl, _, he, _⟩ := h
+    simp only [JsOkT] at hf
+    exact ⟨_, rfl, embSJ_pos hs _ hf p _ _ he⟩
   | .delete t, hf, x, h, o => by
     obtain ⟨sm, p, rfl, _, he, _⟩ := h
     simp only [JsOkT] at hf
@@ -592,9 +781,21 @@ theorem embSJ_tgtL1 (hs : List Spec.Name) : (s : Stmt) → JsOkT s = true → (x
     obtain ⟨sm, p, rfl, _, he, _⟩ := h
     simp only [JsOkT] at hf
     exact ⟨_, rfl, embSJ_pos hs _ hf p _ _ he⟩
-  | .mcall .., hf, _, _, _ => by simp [JsOkT] at hf
+  | .mcall om m as, hf, x, h, o => by
+    obtain ⟨sm, p, rfl, _, he, _⟩ := h
+    simp only [JsOkT] at hf
+    exact ⟨_, rfl, embSJ_pos hs _ hf p _ _ he⟩
   | .tell .., hf, _, _, _ => by simp [JsOkT] at hf
-  | .repeatIn .., hf, _, _, _ => by simp [JsOkT] at hf
+  | .repeatIn (.var .loc v) l body, hf, x, h, o => by
+    obtain ⟨presz, bp, incrsz, postsz, csz, body', pb, pk, pc, pl, ps, pg, pl2, pv, ln, rfl, ho, hc, hl, hb⟩ := h
+    simp only [JsOkT, Bool.and_eq_true] at hf
+    have hparts := inParts_emb l ln hl v pb pk pc pl ps pg pl2 pv
+    rw [← hc] at hparts
+    simp only [tgtL1, hparts]
+    refine ⟨_, rfl, ?_⟩
+    simp only [EmbSJ]
+    exact ⟨_, _, _, _, _, _, _, _, _, _, rfl, hl, embSsJ_tgtL hs body hf.2 body' hb _⟩
+  | .repeatIn (.int _) .., hf, _, _, _ => by simp [JsOkT] at hf
   | .exitRepeat, hf, _, _, _ => by simp [JsOkT] at hf
   | .repeatWith (.int _) .., hf, _, _, _ => by simp [JsOkT] at hf
 theorem embSsJ_tgtL (hs : List Spec.Name) : (ss : List Stmt) → JsOkTs ss = true → (xs : List Src) → EmbSrcH hs ss xs → ∀ (o : Int),
